@@ -1,6 +1,6 @@
 PROP = dict(
     gens=[dict(tool="gennorm", out="GenNorm.v", args=["{repo}"])],
-    drivers=[dict(cmd="drv-addr", family="addr")],
+    drivers=[dict(cmd="drv-addr", family="addr", netns=True)],
     rule="inputs: listen addresses, 70 % from a grammar (seven schemes in lower/mixed case, unknown / empty / malformed "
          "schemes, odd separators; hosts: reg-names, IPv4, bracketed IPv6 with and without zones incl. zones made of '%', "
          "digits and '25', bare IPv6, empty hosts, hosts with '%'; ports present / absent / empty / non-numeric; inet "
